@@ -280,6 +280,7 @@ pub fn gen_c06(c: &mut Ctx) {
                     p!(c, "decomp {} {} {}", ty, t.show(), v);
                     p!(c, "posunate {} {} {}", ty, t.show(), v);
                     p!(c, "negunate {} {} {}", ty, t.show(), v);
+                    p!(c, "dflags {} {} {}", ty, t.show(), v);
                 }
             }
         }
@@ -669,6 +670,14 @@ pub fn gen_c10(c: &mut Ctx) {
             }
         }
     }
+    for n in 0..=14usize {
+        for ty in types_for(n) {
+            let a = gen_tab(&mut c.rng, n);
+            p!(c, "linfo {} {}", ty, a.show());
+            let m = c.rng.below(1 << n);
+            p!(c, "get {} {} {}", ty, a.show(), m);
+        }
+    }
     for n in 0..=5usize {
         for _ in 0..(if c.thorough { 30 } else { 6 }) {
             let a = gen_tab(&mut c.rng, n);
@@ -831,6 +840,7 @@ pub fn gen_c12(c: &mut Ctx) {
         let cubes = all_cubes(n);
         for a in &cubes {
             p!(c, "cube info {}", sc(*a));
+            p!(c, "cube isconstant {}", sc(*a));
             p!(c, "cube display {}", sc(*a));
             for m in 0..(1usize << n) {
                 p!(c, "cube value {} {:x}", sc(*a), m);
@@ -934,6 +944,20 @@ fn mask_of_vars(n: usize) -> u32 {
 }
 
 pub fn gen_c13(c: &mut Ctx) {
+    // the small constructors
+    for ty in ["ecube", "soes"] {
+        for n in [0usize, 1, 3, 12, 32] {
+            for name in ["zero", "one"] {
+                p!(c, "fctor {} {} {} 0", ty, name, n);
+            }
+            for v in 0..n.min(32) {
+                if v < 4 || v + 2 >= n {
+                    p!(c, "fctor {} nthvar {} {}", ty, n, v);
+                    p!(c, "fctor {} nthvarinv {} {}", ty, n, v);
+                }
+            }
+        }
+    }
     let nmax = if c.thorough { 5 } else { 4 };
     for n in 0..=nmax {
         let mx = 1u32 << n;
@@ -1030,6 +1054,20 @@ fn scl(l: &[(u32, u32)]) -> String {
 }
 
 pub fn gen_c14(c: &mut Ctx) {
+    // the small constructors
+    for ty in ["sop"] {
+        for n in [0usize, 1, 3, 12, 32] {
+            for name in ["zero", "one"] {
+                p!(c, "fctor {} {} {} 0", ty, name, n);
+            }
+            for v in 0..n.min(32) {
+                if v < 4 || v + 2 >= n {
+                    p!(c, "fctor {} nthvar {} {}", ty, n, v);
+                    p!(c, "fctor {} nthvarinv {} {}", ty, n, v);
+                }
+            }
+        }
+    }
     // exhaustive pairs of short cube lists for n <= 2 (quick), random and redundant up to n = 10
     for n in 0..=(if c.thorough { 3 } else { 2 }) {
         let cubes: Vec<(u32, u32)> = all_cubes(n).into_iter().filter(|x| x.0 & x.1 == 0).collect();
@@ -1092,6 +1130,20 @@ pub fn gen_c14(c: &mut Ctx) {
 }
 
 pub fn gen_c15(c: &mut Ctx) {
+    // the small constructors
+    for ty in ["esop"] {
+        for n in [0usize, 1, 3, 12, 32] {
+            for name in ["zero", "one"] {
+                p!(c, "fctor {} {} {} 0", ty, name, n);
+            }
+            for v in 0..n.min(32) {
+                if v < 4 || v + 2 >= n {
+                    p!(c, "fctor {} nthvar {} {}", ty, n, v);
+                    p!(c, "fctor {} nthvarinv {} {}", ty, n, v);
+                }
+            }
+        }
+    }
     for n in 0..=(if c.thorough { 4 } else { 3 }) {
         for t in all_tabs(n) {
             p!(c, "esop fromlut {}", t.show());
